@@ -18,7 +18,7 @@ EXPLANATION = (
     "its own rows/columns; (accumulate) in every int8 kernel function the accumulate/beta flag only selects whether the previous "
     "output value is added: every value assigned under a beta guard and live outside it derives from an output read (or is the "
     "zero that replaces it), so the zero-point correction terms (k*za*zb, row/column sums) are applied on every depth block. "
-    "Exactness of the i32 arithmetic itself, the reduced-range claim and dynamic quantisation error are numerical and not decided.")
+    "Exactness of the i32 arithmetic itself, the reduced-range claim and dynamic quantisation error are numerical and not decided. (accumulator-width) no scalar add / sub / mul on an integer type narrower than 32 bits in the int8 packing and kernel functions, with the count of i32 arithmetic seen there as positive control.")
 ASSUMPTIONS = ["pmaddubsw-family intrinsics are the only saturating intermediates of the x86 int8 kernels (enumerated by name: maddubs)",
                "non-x86 kernels (Arm dot-product/i8mm, wasm) are not compiled on this host and are not analysed"]
 
@@ -35,6 +35,7 @@ def run(ctx):
     quant_params_used(ctx, fb)
     im2col_padding(ctx, fb)
     depth_block(ctx, fb)
+    accumulator_width(ctx, fb)
 
 
 def is_int8_fn(f):
@@ -614,3 +615,37 @@ def depth_block(ctx, fb):
     ok = ok_value(['c', [0]])
     ctx.inst(R, 'non-final-blocks-tile-aligned', ok, 'the depth block size is min/max of the depth, the constant 1024 / size_of and the minimum size (or rounded with next_multiple_of): non-final blocks are multiples of the K tile' if ok else
              'the depth block size is computed with %s: a non-final depth block need not be a multiple of the int8 K tile (4), and the im2col packer then gathers rows of the next block into the padding of a partial tile (wrong column sums, every ConvInteger output off by zero_point * spurious elements)' % (', '.join(sorted(set(bad))) or 'unrecognised arithmetic'), f.loc())
+
+
+# ---------------------------------------------------------------------------------------------------------------
+def accumulator_width(ctx, fb):
+    """'Integer GEMM is exact in i32': the row / column sums of the packed operands and the scalar accumulators of the int8
+    kernels add up to K (<= depth block 1024) products or elements of magnitude up to 255 * 128, so any scalar
+    accumulation in a type narrower than 32 bits wraps (release) or panics (debug) for bright rows.  Zero-expected rule
+    over the int8 packing and kernel functions; the count of i32 arithmetic seen is the positive control."""
+    R = 'C17.accumulator-width'
+    wide = 0
+    nf = 0
+    for f in fb.fns(crate='rten_gemm'):
+        if not f.has_mir() or '::tests' in f.path:
+            continue
+        if not (is_int8_fn(f) or f.path.startswith(('rten_gemm::packing::int8', '<rten_gemm::packing::int8'))):
+            continue
+        nf += 1
+        k = 0
+        for i, b in enumerate(f.bbs):
+            if b.get('c'):
+                continue
+            for st in b['s']:
+                if st[0] == '=' and st[2][0] == 'bin' and re.match(r'(Add|Sub|Mul)', st[2][1]) and len(st[2]) > 4:
+                    ty = f.ty(st[2][4])
+                    if ty == 'i32':
+                        wide += 1
+                    elif ty in ('u8', 'i8', 'u16', 'i16'):
+                        k += 1
+                        short = re.sub(r'^<?rten_gemm::', '', f.path)[-70:]
+                        ctx.inst(R, 'narrow:%s#%d' % (short, k), False,
+                                 '%s on %s in an int8 GEMM function: sums of u8 / i8 elements or products over a depth block (up to 1024 x 255) do not fit, so the zero-point correction (row / column sums) or the dot product wraps' % (st[2][1], ty),
+                                 '%s:%s' % (f.file, st[3]))
+    ctx.floor(R, 'int8 packing / kernel functions scanned', nf, 20)
+    ctx.floor(R, 'i32 arithmetic statements seen in them (positive control)', wide, 30)
